@@ -268,10 +268,16 @@ class Server(Acceptor):
         self.serviceAccepts()  # populate .axes
         while self.axes:
             cs, ca = self.axes.popleft()
-            if ca != cs.getpeername() or self.eha[1] != cs.getsockname()[1]: # only port on eha
+            try:
+                peer = cs.getpeername()
+            except OSError as ex:  # peer reset before accepted so not connected
+                logger.error("Accepted socket from %s already disconnected.\n%s\n", ca, ex)
+                cs.close()
+                continue
+            if ca != peer or self.eha[1] != cs.getsockname()[1]: # only port on eha
                 raise ValueError("Accepted socket host addresses malformed for "
                                  "peer. ca {0} != {1} or ha port {2} != {3}\n"
-                                 "".format(ca, cs.getpeername(), self.eha, cs.getsockname()))
+                                 "".format(ca, peer, self.eha, cs.getsockname()))
             remoter = Remoter(tymth=self.tymth,
                               ha=cs.getsockname(),
                               ca=ca,
@@ -546,10 +552,16 @@ class ServerTls(Server):
         self.serviceAccepts()  # populate .axes
         while self.axes:
             cs, ca = self.axes.popleft()
-            if ca != cs.getpeername() or self.eha[1] != cs.getsockname()[1]: # only port on eha
+            try:
+                peer = cs.getpeername()
+            except OSError as ex:  # peer reset before accepted so not connected
+                logger.error("Accepted socket from %s already disconnected.\n%s\n", ca, ex)
+                cs.close()
+                continue
+            if ca != peer or self.eha[1] != cs.getsockname()[1]: # only port on eha
                 raise ValueError("Accepted socket host addresses malformed for "
                                  "peer. ca {0} != {1} or ha port {2} != {3}\n"
-                                 "".format(ca, cs.getpeername(), self.eha, cs.getsockname()))
+                                 "".format(ca, peer, self.eha, cs.getsockname()))
             remoter = RemoterTls(tymth=self.tymth,
                                  ha=cs.getsockname(),
                                  ca=ca,
